@@ -26,10 +26,16 @@ class AnchorMissing(AnalysisError):
 # --------------------------------------------------------------------------- AST helpers
 
 
+_SHARED = (ast.expr_context, ast.operator, ast.unaryop, ast.boolop, ast.cmpop)
+
+
 def set_parents(tree: ast.AST) -> None:
     for node in ast.walk(tree):
         for child in ast.iter_child_nodes(node):
-            child._parent = node  # type: ignore[attr-defined]
+            # Load()/Add()/Eq()... are singletons shared by every tree the parser builds: a back-link on them would tie
+            # all trees together (and drag a whole module into every deepcopy of a small expression)
+            if not isinstance(child, _SHARED):
+                child._parent = node  # type: ignore[attr-defined]
 
 
 def parent(node):
@@ -462,6 +468,7 @@ class Report:
     extra: dict = field(default_factory=dict)
     t0: float = field(default_factory=time.time)
     deferred: list = field(default_factory=list)
+    notes: list = field(default_factory=list)
 
     def sub(self, fn, *args, **kw):
         """Run one group of obligations; a shape it cannot read is remembered instead of aborting the run, so that
@@ -552,6 +559,7 @@ def finish(rep: Report, seed: int = 0, write: bool = True, quiet: bool = False) 
         raise AnalysisError(f"{rep.prop}: " + "; ".join(rep.deferred))
     for d in rep.deferred:
         out.append(f"NOTE: part of the analysis could not be completed: {d}")
+    out.extend(rep.notes)
     seen = set()
     for o in listed:
         if o.key in seen:
